@@ -1,4 +1,5 @@
 import WD.Model.Pipeline
+import WD.Spec.PipelineSpec
 import WD.Driver.Proto
 namespace WD.Driver
 open WD WD.Pipe WD.Proto
@@ -34,15 +35,11 @@ def canonEvents (pevs : List PEv) : List String :=
   let flat := runs strs [] []
   flat.foldl (fun acc s => if acc.getLast? == some s then acc else acc ++ [s]) []
 
-def coveredB (s : Sys) : Bool :=
-  s.fs.ents.all (fun (e : Ent) => !(e.isDir && (e.path == ["W"] || isUnder ["W"] e.path)) ||
-    (match s.k.wdOfIno e.ino with
-     | some wd => lookupW s.lib.pathForWd wd == some e.path
-     | none => false))
-
 def sameTreeB (a b : Tree) : Bool := a.all (fun x => b.contains x) && b.all (fun x => a.contains x)
 
-/-- `pipespec <recursive> <full> I <n> op*n O <m> op*m` : evaluates the candidate theorems on a history -/
+/-- `pipespec <recursive> <full> I <n> op*n O <m> op*m` : evaluates the pipeline theorems' statements on a
+    history (operations the file system would refuse are skipped): the invariant after every operation, the
+    per-operation contract, the replay -/
 def pipeSpecLine (ts : List String) : String :=
   match ts with
   | rec :: full :: "I" :: n :: rest =>
@@ -56,17 +53,18 @@ def pipeSpecLine (ts : List String) : String :=
       let k0 : Kern := ⟨[], 1, 1⟩
       let fs0 := initOps.foldl (fun fs op => if validOp fs op then (kernelOp fs k0 op).1 else fs) FS.init
       let s0 := Sys.start fs0 (bool01 rec) (bool01 full)
-      let step := fun (acc : Sys × List PEv × Bool × Bool × Bool) (op : Op) =>
-        let (s, evs, cov, valid, scope) := acc
-        if !validOp s.fs op then acc else      -- the harness would not have been able to apply it
+      let step := fun (acc : Sys × List PEv × Bool × Bool × Nat) (op : Op) =>
+        let (s, evs, inv, con, nops) := acc
+        if !validOp s.fs op then acc else
         let (s1, e) := s.op op
-        (s1, evs ++ e, cov && (coveredB s1 || s1.stopped), valid, scope && inScope op && quietOp s.fs s.k op)
-      let (fin, evs, cov, valid, scope) := ops.foldl step (s0, [], coveredB s0, true, true)
+        let c := contract s.fs s.lib.recursive s.full op
+        (s1, evs ++ e, inv && (s1.inv || s1.stopped), con && (s.stopped || (e == c.1 && s1.stopped == c.2)), nops + 1)
+      let (fin, evs, inv, con, nops) := ops.foldl step (s0, [], s0.inv, true, 0)
       let t0 := if bool01 rec then treeW fs0 else treeW1 fs0
       let t1 := if bool01 rec then treeW fin.fs else treeW1 fin.fs
       let rep := replay t0 evs
       let rep := if bool01 rec then rep else rep.filter (fun x => x.1.length = 2)
-      some s!"valid={b01 valid} scope={b01 scope} covered={b01 cov} replay={b01 (sameTreeB rep t1)} crashed={b01 fin.crashed} stopped={b01 fin.stopped}").getD "bad-op"
+      some s!"ops={nops} inv={b01 inv} contract={b01 con} replay={b01 (sameTreeB rep t1)} crashed={b01 fin.crashed} stopped={b01 fin.stopped}").getD "bad-op"
   | _ => "bad-op"
 
 /-- `pipe <recursive> <full> I <n> op*n O <m> op*m` -/
